@@ -13,7 +13,7 @@ mvars == <<pvars, fv, pc>>
 
 C12Cases ==
   {[kind |-> "msg", rule |-> r, pl |-> pl, sur |-> s] : r \in MessageRules, pl \in Placements, s \in Surrounds}
-  \cup {[kind |-> "method", rule |-> r, pl |-> "top", sur |-> s] : r \in {"R21", "R22", "R23", "R24"}, s \in Surrounds}
+  \cup {[kind |-> "method", rule |-> r, pl |-> "top", sur |-> s] : r \in MethodRules, s \in Surrounds}
   \cup {[kind |-> "twin", rule |-> t, pl |-> "top", sur |-> "plain"] : t \in Twins}
 
 C14Cases == {[kind |-> "c14", rule |-> t, pl |-> lay, sur |-> "plain"] : t \in CodecFeatures, lay \in Layouts}
